@@ -145,6 +145,13 @@ int vp_case(Choice& c, Report& rep) {
   std::vector<float> pcm;
   sig::generate(family, seed, Fs, ch, (int)nsamp, amp, pcm);
   for (auto& v : pcm) { if (v > 1.f) v = 1.f; if (v < -1.f) v = -1.f; }
+  // Known finding C20F3: with the speech-layer DTX in charge a stereo signal whose channels are in anti-phase (L = -R, silent mid channel) is
+  // classed inactive - the side channel's activity is never consulted - and whole bursts are sent as 1-byte DTX packets.  The class (anti-phase
+  // stereo input) is generated only when the finding is lifted (replay of corpus/C20/known/C20F3.case); hash-derived so the choice layout is unchanged.
+  if (ch == 2 && (fnv1a(c.d, c.n) % 8) == 3 && !rep.exclude("C20F3")) {
+    for (size_t i = 0; i < nsamp; i++) pcm[2 * i + 1] = -pcm[2 * i];
+    rep.label("signal:anti-phase-stereo");
+  }
   if (api == 0) for (auto& v : pcm) { double q = std::floor(v * 32768.0 + 0.5); if (q > 32767) q = 32767; if (q < -32768) q = -32768; v = (float)(q / 32768.0); }   // what the int16 entry point sees
   std::vector<int> seg_start(segs.size() + 1, 0);
   for (size_t k = 0; k < segs.size(); k++) {
